@@ -55,7 +55,7 @@ Proof.
   pose proof (walk_node_exec c nd p st) as A.
   destruct (exec c (schedule c (s_stack st) p nd) st) as [st'|st' a|st' pc]; cbn [agrees eres_state] in *.
   - rewrite A. eexists; reflexivity.
-  - destruct A as [[ms A]|[_ [ms A]]]; rewrite A; eexists; reflexivity.
+  - destruct A as [ms A]; rewrite A; eexists; reflexivity.
   - destruct A as [ms A]. rewrite A. eexists; reflexivity.
 Qed.
 
